@@ -264,7 +264,7 @@ let () = Sys.set_signal Sys.sigalrm (Sys.Signal_handle (fun _ -> raise Case_time
 let quirks = ref faithful
 let set_quirks (b : String.t) =
   let g i = String.length b > i && b.[i] = '1' in
-  quirks := { q_lit_eof = g 0; q_stale_ctx = g 1; q_recover_scope = g 2; q_memo_nocharge = g 3; q_memo_label = (String.length b <= 4 || b.[4] = '1'); q_lr_memo_state = (String.length b <= 5 || b.[5] = '1') }
+  quirks := { q_lit_eof = g 0; q_stale_ctx = g 1; q_recover_scope = g 2; q_memo_nocharge = g 3; q_memo_label = (String.length b <= 4 || b.[4] = '1'); q_lr_memo_state = (String.length b <= 5 || b.[5] = '1'); q_memo_expected = (String.length b <= 6 || b.[6] = '1') }
 
 let run_case (fuel : int) (sx : sexp) : String.t =
   match sx with
@@ -538,7 +538,7 @@ let () =
               ("-var", Arg.Set_string var, "variable name for -embed");
               ("-bl", Arg.Set_string bl, "file of classes: print Basic-Latin tables of the model");
               ("-decode", Arg.Set_string dec, "file of hex strings: print decode results");
-              ("-quirks", Arg.String set_quirks, "6 bits: lit_eof stale_ctx recover_scope memo_nocharge memo_label lr_memo_state (default 111111 = faithful)");
+              ("-quirks", Arg.String set_quirks, "7 bits: lit_eof stale_ctx recover_scope memo_nocharge memo_label lr_memo_state memo_expected (default 1111111 = faithful)");
               ("-lrspec", Arg.Set lrspec_mode, "evaluate the specification with left-recursive rules read as iterations (Spec.LRIter)");
               ("-ref", Arg.Set ref_mode, "evaluate the specification (Ref) instead of the implementation model");
               ("-limit", Arg.Set_float case_limit, "seconds allowed per case (default 15)");
